@@ -85,11 +85,28 @@ impl FloatCachePolicy {
         let mut cache = self.cache.lock().map_err(|e| {
             CacheError::RuntimeError(format!("Could not get lock on cache due to {}", e))
         })?;
+        #[cfg(feature = "verif_hooks")]
+        {
+            // report the lookup after the lock is released so a sink may block
+            let result = cache.get(&int_key).copied();
+            drop(cache);
+            crate::verif::emit(crate::verif::Event::CacheGet {
+                key: &int_key,
+                hit: result.is_some(),
+            });
+            return Ok(result);
+        }
+        #[cfg(not(feature = "verif_hooks"))]
         Ok(cache.get(&int_key).copied())
     }
 
     pub fn update(&self, key: &[f64], value: f64) -> Result<(), CacheError> {
         let int_key = self.float_key_to_int_key(key);
+        #[cfg(feature = "verif_hooks")]
+        crate::verif::emit(crate::verif::Event::CacheUpdate {
+            key: &int_key,
+            value,
+        });
         let mut cache = self.cache.lock().map_err(|e| {
             CacheError::RuntimeError(format!("Could not get lock on cache due to {}", e))
         })?;
